@@ -214,6 +214,14 @@ func (dw *DiskWriter) HandleChange(kind ChangeKind, p string, fi os.FileInfo, er
 		if err := renameFile(newPath, destPath); err != nil {
 			return errors.Wrapf(err, "failed to rename %s to %s", newPath, destPath)
 		}
+		if statCopy.Linkname != "" && fi.Mode()&os.ModeSymlink == 0 {
+			// renaming one name of an inode over another name of the same inode does
+			// nothing and reports success: when the entry already was a link to its
+			// source the temporary name is still there
+			if err := os.Remove(newPath); err != nil && !errors.Is(err, os.ErrNotExist) {
+				return errors.Wrapf(err, "failed to remove %s", newPath)
+			}
+		}
 	}
 
 	if isRegularFile {
